@@ -73,6 +73,5 @@ Cfg3all == {[n |-> 3, faulty |-> {f}] : f \in 1..3}
 Cfg4 == {[n |-> 4, faulty |-> {2}]}
 Cfg34 == Cfg3 \cup Cfg4
 CfgAll == {[n |-> n, faulty |-> {f}] : n \in 3..4, f \in 1..2} \cup {[n |-> 3, faulty |-> {3}], [n |-> 4, faulty |-> {4}], [n |-> 3, faulty |-> {}]}
-Cfg5 == {[n |-> 5, faulty |-> {3}]}
 Cfg4two == {[n |-> 4, faulty |-> {1, 2}]}
 ====
